@@ -348,6 +348,37 @@ def _long_job(_):
     return st
 
 
+def _formula_text_job(_):
+    """extended / verbose / extended_rounded presets (no independent formula table): every emitted column must equal the preset's formula text evaluated on the WHOLE parsed column (aggregates such as mean, std, max are over all rows, duplicates included)"""
+    st = Stats()
+    cols = [('1', '2', '2', '2', '7', '0.5', '3', '3'), ('4', '4', '4', '1', '9', '2', '2', '0.25'), ('-1', '2', '2', '5', '5', '5', '0', '8'), ('3', '1', '2', '1', '3', '2', '1', '3')]
+    for preset in ('extended', 'verbose', 'extended_rounded'):
+        for cells in cols:
+            ok, res = safe(run_transform, cells, preset)
+            st.count('evaluations')
+            st.count('formula_text_columns')
+            st.count('nontrivial')
+            case = {'kind': 'formula_text', 'preset': preset, 'cells': list(cells)}
+            if not ok:
+                st.violation(case, f'construct_new_features raised {res}', {'kind': 'exception', 'preset': preset})
+                continue
+            tr, out = res
+            X = np.array([parse_cell(c) for c in cells])
+            for name, text in vault0()[preset].items():
+                colname = 'n' + name
+                if colname not in out.columns:
+                    continue
+                with warnings.catch_warnings():
+                    warnings.simplefilter('ignore')
+                    with np.errstate(all='ignore'):
+                        exp = np.asarray(eval(text, {'np': np, 'X': X})).astype(str).tolist()
+                got = [str(v) for v in out[colname].tolist()]
+                if got != exp:
+                    st.violation(case, f'{preset} {name} on {list(cells)}: emitted {got}, formula on the whole column gives {exp}', {'kind': 'formula_text', 'preset': preset})
+                    break
+    return st
+
+
 REUSE_COLS = [('1', '2', '4', '0.5'), ('', '"3"', '9', '0.02'), ('5', '6', '1', '0.16'), ('2', '2', '3', '1'), ('1', '2', '4', '0.5')]
 
 
@@ -394,6 +425,8 @@ def _dispatch(item):
         return _reuse_job(job)
     if k == 'long':
         return _long_job(job)
+    if k == 'formula_text':
+        return _formula_text_job(job)
     if k == 'enrich':
         # the pipeline's own entry point (enrich_with_transformations) for successive batches with different numeric column sets
         from mc.checks.c11 import _enrich_sets
@@ -425,6 +458,7 @@ def run(ctx):
     jobs.append(('reuse', None))
     jobs.append(('long', None))
     jobs.append(('enrich', None))
+    jobs.append(('formula_text', None))
     for st in pmap(_dispatch, jobs):
         ctx.stats.merge(st)
     ctx.extra['fw_column_length'] = maxlen
@@ -437,6 +471,8 @@ def eval_case(case):
     st = Stats()
     if case['kind'] == 'seqdiff':
         return seqdiff.replay(seq_call, SEQ_MENU, case['seq'])
+    if case['kind'] == 'formula_text':
+        return [v['what'] for v in _formula_text_job(None).violations if v['case']['preset'] == case['preset']]
     if case['kind'] == 'enrich_sets':
         from mc.checks.c11 import _enrich_sets
         return [v['what'] for v in _enrich_sets(None).violations]
